@@ -265,7 +265,7 @@ C02_CMUL = [
     (I(64, 2), 'max', [0xffffffffffffffff, 0xffffffffffffffff], 'thorough'), (I(64, 2), 'min', [0, 0x8000000000000000], 'quick'), (I(64, 2), 'p2p1', [1, 1], 'quick'), (I(64, 2), 'three', [3, 0], 'quick'),
     (I(64, 3), 'mix', [0xfffffffffffffffe, 1, 0x7fffffffffffffff], 'thorough'), (I(64, 3), 'neg3', [0xfffffffffffffffd, 0xffffffffffffffff, 0xffffffffffffffff], 'thorough'), (I(32, 4), 'alt', [0xffffffff, 0, 0xffffffff, 0], 'thorough'),
     (I(64, 3), 'p2s', [0, 1, 0x8000000000000000], 'thorough'), (I(16, 4), 'c64', [0xfffe, 0x0001, 0x8000, 0x7fff], 'thorough'), (I(8, 8), 'c64', [0xff, 0, 0x80, 0x7f, 1, 0xfe, 0, 0x80], 'thorough'), (I(64, 1), 'max', [0xffffffffffffffff], 'thorough'), (I(64, 1), 'min', [0x8000000000000000], 'quick'),
-    (I(64, 2), 'smax', [0xffffffffffffffff, 0x7fffffffffffffff], 'thorough'), (I(32, 2), 'neg1', [0xffffffff, 0xffffffff], 'thorough'),
+    (I(64, 2), 'smax', [0xffffffffffffffff, 0x7fffffffffffffff], 'thorough'), (I(64, 5), '2p130p1', [1, 0, 4, 0, 0], 'thorough'), (I(64, 4), 'm2p64', [0, 0xffffffffffffffff, 0xffffffffffffffff, 0xffffffffffffffff], 'thorough'), (I(32, 2), 'neg1', [0xffffffff, 0xffffffff], 'thorough'),
 ]
 for i, tag, bv, tier in C02_CMUL:
     L = i.bits // 64
@@ -339,10 +339,11 @@ for key, (i, lst) in C03_CDIV.items():
         add(H('C03', f"c03_u_cdiv_{i.tag}_{tag.replace('.', '').replace('_', '')}", 'c03_u_cdiv', f"{i.n + 2}, {i.U}, {i.digit}, {i.n}, {X}, [{', '.join(hex(v) for v in dv)}]", tier=('quick' if tag in C03_CDIV_FAST else 'thorough'), cap=(600 if tag in C03_CDIV_FAST else 3600), inst=i.label, core=False, mem_gb=8,
               funcs='BUint / and % (Knuth D: q-hat estimate, corrections, multiply-subtract, add-back at every quotient position)', bound=f'all dividends; concrete divisor 0x{tag}; postcondition n = q*d + r, r < d'))
 for tag, dv, tier in (('1d8..03', [0x8000000000000003, 0, 0], 'quick'), ('8..01', [1, 0x8000000000000000, 0], 'quick'), ('f..f', [0xffffffffffffffff, 0xffffffffffffffff, 0], 'thorough'), ('1_1', [1, 1, 0], 'quick'),
-                      ('7..f_f..e', [0xfffffffffffffffe, 0x7fffffffffffffff, 0], 'thorough')):
-    i = I(64, 3)
+                      ('7..f_f..e', [0xfffffffffffffffe, 0x7fffffffffffffff, 0], 'thorough'),
+                      ('2p130', [0, 0, 4, 0, 0], 'thorough'), ('2p128p1', [1, 0, 1, 0], 'quick'), ('2p65', [0, 2, 0, 0, 0], 'quick')):
+    i = I(64, len(dv))
     add(H('C03', f"c03_u_cdiv_wide_{i.tag}_{tag.replace('.', '').replace('_', '')}", 'c03_u_cdiv_wide', f"{i.n + 2}, {i.U}, {i.n}, [{', '.join(hex(v) for v in dv)}]", tier=tier, cap=(900 if tier == 'quick' else 5400), inst=i.label, core=False, mem_gb=12,
-          funcs='BUint<3> / and % (Knuth D with u64 digits, two quotient digits)', bound=f'all 2^192 dividends; concrete two-digit divisor {tag}; limb oracle n = q*d + r, r < d'))
+          funcs='BUint<3> / and % (Knuth D with u64 digits, two quotient digits)', bound=f'all 2^{i.bits} dividends; concrete multi-digit divisor {tag}; limb oracle n = q*d + r, r < d'))
 c03_set(I(8, 1), 'any', 'quick', 600)
 c03_set(I(8, 2), 'any', 'quick', 900, path='small')
 c03_set(I(16, 1), 'any', 'quick', 900)
